@@ -9,8 +9,8 @@ from .c08 import spec_poly, cmat
 from .c19 import rand_eri
 
 IMPORTS = ('From OFV Require Import Base.Cplx Base.Lin Base.Mat Sem.PauliSem Sem.FermiSem Model.SymbolicOp Model.QubitOp Model.LadderOp Model.JordanWigner '
-           'Check.DictEquiv Check.OpEquiv Check.Reductions Check.Conversions Thm.C01.FermiHom.\n')
-NEEDS = ['Check/Reductions', 'Check/Conversions']
+           'Check.DictEquiv Check.OpEquiv Check.Reductions Check.Conversions Thm.C01.FermiHom Thm.C17.RDMIdentities.\n')
+NEEDS = ['Check/Reductions', 'Check/Conversions', 'Thm/C17/RDMIdentities']
 LEVEL = 'translation_validation'
 EPS2 = cQ(Fraction(1, 10 ** 16))
 def cNl(l): return '(' + clist([cN(int(x)) for x in l]) + ' : list N)'
@@ -171,5 +171,25 @@ def run(ctx):
         except Exception as e:
             ctx.violation('C17 rdm mapping raised %s: %s' % (type(e).__name__, e), {'n_qubits': nq})
     ctx.sample({'part': 'active_space', 'note': 'all occupied/active/virtual partitions of 2-3 spatial orbitals with eight-fold symmetric dyadic integrals'})
+    # ---- RDM mapping functions as formulas: on ARBITRARY Gaussian-integer tensors the returned arrays equal, entry by
+    #      entry, the right-hand sides whose operator identities are the [B] theorems C17_rdm_*_identity_4; inverses undo them
+    def ct2(M): return '(' + clist(['(' + clist([cC(complex(x)) for x in row]) + ' : list C)' for row in M]) + ' : list (list C))'
+    def ct4(T): return '(' + clist(['(' + clist(['(' + clist(['(' + clist([cC(complex(x)) for x in c]) + ' : list C)' for c in b]) + ' : list (list C))' for b in a]) + ' : list (list (list C)))' for a in T]) + ' : list (list (list (list C))))'
+    for i in range(N(8, 40)):
+        n = rng.choice([2, 3])
+        gi = lambda: complex(rng.randint(-3, 3), rng.randint(-3, 3) if rng.random() < 0.6 else 0)
+        T1 = np.array([[gi() for _ in range(n)] for _ in range(n)]); T2 = np.array([gi() for _ in range(n ** 4)]).reshape((n,) * 4)
+        T2 = T2 + T2.transpose(1, 0, 3, 2)      # pair-exchange symmetry T[p,q,r,s] = T[q,p,s,r] (shared by every 2-RDM): the space on which the maps are mutually inverse
+        rp = {'call': 'rdm mapping functions on arbitrary tensors', 'n': n, 'opdm': repr(T1.tolist()), 'tpdm': repr(T2.tolist())}
+        try:
+            th = rm.map_two_pdm_to_two_hole_dm(T2, T1); ph = rm.map_two_pdm_to_particle_hole_dm(T2, T1); oh = rm.map_one_pdm_to_one_hole_dm(T1)
+            back = [rm.map_two_hole_dm_to_two_pdm(th, T1), rm.map_particle_hole_dm_to_two_pdm(ph, T1), rm.map_one_hole_dm_to_one_pdm(oh)]
+        except Exception as e:
+            ctx.violation('C17 rdm mapping function raised %s: %s' % (type(e).__name__, e), rp); continue
+        add('rdm_map_formulas', '(two_hole_map_ok %s %s %s %s && particle_hole_map_ok %s %s %s %s && one_hole_map_ok %s %s %s)' %
+            (cnat(n), ct2(T1), ct4(T2), ct4(th), cnat(n), ct2(T1), ct4(T2), ct4(ph), cnat(n), ct2(T1), ct2(oh)), rp, key=(n, i))
+        ctx.count('rdm_map_inverses', 1, nontrivial_key=(n, i))
+        if not (np.array_equal(back[0], T2) and np.array_equal(back[1], T2) and np.array_equal(back[2], T1)):
+            ctx.violation('C17 rdm mapping functions: an inverse map does not undo its forward map exactly', rp)
     res = coq_eval_bools(ctx, 'c17', IMPORTS, items, chunk=20)
     judge(ctx, res, meta, 'C17')
